@@ -1500,3 +1500,76 @@ print("not reproduced"); sys.exit(0)
 
 TensorToFunsor.replay = _replay_to_funsor
 ToFunsorToDataRoundTrip.replay = _replay_to_funsor
+
+
+@register
+class EagerGetitemTensorTensor(Contract):
+    """eager_getitem_tensor_tensor: x[..., y] at event position `offset` with y an integer Tensor: result inputs = union of
+    both operands' inputs (lhs order first) and for EVERY index
+        result.data[batch idx, remaining event idx] == x.data[x's batch idx, event idx with y.data[y's batch idx] at offset]
+    -- each operand is read at ITS OWN named coordinates (operands whose inputs are the same names in a different order are
+    aligned, not used positionally). structure bound: <= 2 names per operand, x event rank 1..2, every offset."""
+
+    props = ("C01", "C02")
+    file = "funsor/tensor.py"
+    qualname = "eager_getitem_tensor_tensor"
+    max_paths = 4000
+    mutants = (("operands with the same names in another order used positionally", "    if lhs.inputs == rhs.inputs:\n        inputs, lhs_data, rhs_data = lhs.inputs, lhs.data, rhs.data", "    if lhs.inputs.keys() == rhs.inputs.keys():\n        inputs, lhs_data, rhs_data = lhs.inputs, lhs.data, rhs.data"), ("index placed at the batch offset", "target_dim = lhs_data_dim - len(lhs.output.shape) + offset", "target_dim = offset"))
+
+    def structures(self, tier):
+        pool = ["", "a", "ab", "ba", "b"]
+        for ln in pool:
+            for rn in pool:
+                for e in (1, 2):
+                    for off in range(e):
+                        yield "x=%s/%d,y=%s,offset=%d" % (ln or "-", e, rn or "-", off), (ln, rn, e, off)
+
+    def build(self, p, st):
+        ln, rn, e, off = st
+        x, xbs, xes = mk_tensor(p, tuple(ln), e, "X")
+        ysz = []
+        y = TensorM.__new__(TensorM)
+        ybs = {}
+        for n in rn:
+            if n in xbs:
+                ybs[n] = xbs[n]
+            else:
+                s = p.fresh_int("yb_" + n)
+                p.assume(s >= 1)
+                ybs[n] = s
+        Y = z3.Function("Y!%d" % next(p.counter), *([z3.IntSort()] * len(rn) + [z3.IntSort()]))
+
+        def yget(idx):
+            v = SV(Y(*[core._lift(i) for i in idx])) if rn else SV(Y())
+            p.assume(And(0 <= v, v < xes[off]))  # typed: y's output is Bint[size of the indexed dimension]
+            return v
+
+        y.inputs = OrderedDict((n, MDom(ybs[n], ())) for n in rn)
+        y.output = MDom(xes[off], ())
+        y.dtype = xes[off]
+        y.data = SArr(tuple(ybs[n] for n in rn), yget, "int")
+        ns = dict(TENSOR_NS, align_tensors=align_tensors_model, Bint=M.Bint, range=range, len=len, list=list, tuple=tuple)
+        return Ctx(args=(GetOp(offset=off), x, y), namespace=ns, x=x, y=y, xbs=xbs, ybs=ybs, xes=xes, st=st, p=p)
+
+    def may_raise(self, ctx, etype):
+        return False
+
+    total = True
+
+    def ensures(self, ctx, result):
+        ln, rn, e, off = ctx.st
+        if not isinstance(result, TensorM):
+            return [("returns_tensor", False)]
+        names = list(ln) + [n for n in rn if n not in ln]
+        sz = [ctx.xbs[n] if n in ctx.xbs else ctx.ybs[n] for n in names]
+        ev = tuple(s for k, s in enumerate(ctx.xes) if k != off)
+        shape = tuple(sz) + ev
+        cl = [("inputs_are_the_union", list(result.inputs) == names), ("shape", deep_eq(tuple(result.data.shape), shape))]
+        if len(result.data.shape) == len(shape):
+            idx = fresh_index(ctx.p, shape)
+            b = {n: idx[k] for k, n in enumerate(names)}
+            yv = ctx.y.data.get(tuple(b[n] for n in rn))
+            evi = list(idx[len(names):])
+            evi.insert(off, yv)
+            cl.append(("each_operand_read_at_its_own_named_coordinates", Implies(in_range(idx, shape), result.data.get(idx) == ctx.x.data.get(tuple(b[n] for n in ln) + tuple(evi)))))
+        return cl
